@@ -3,11 +3,11 @@ package main
 func init() {
 	register(propSpec{
 		ID: "C11", Pkg: "props/c11", NeedCLI: true,
-		Rule: "cases: executions of the goalign binary built from the tree under test. A table of 74 command templates (reformat fasta/phylip/nexus/clustal/paml/tnt incl. phylip and gz variants; clean sites/seqs; compute distance (7 nucleotide models, ranges, protein models)/entropy/pssm; consensus; stats and its 11 sub-commands; dedup; compress; concat; append; identical; diff; codonalign; mask; subseq; subsites; subset; split; extract; divide; transpose; rename; sort; addid; trim name/seq; replace; revcomp; tolower; unalign; translate; orf; phase; phasent; sw; shuffle sites/seqs/rogue/recomb/swap; sample seqs/sites/rarefy; mutate snvs/gaps; build seqboot (plain, gz, tar, partition)/distboot/weightboot; random) with flag values derived from 8 drawn knobs, a --seed drawn over the whole int64 range (special values 0, 1, 2, -2, -3, -12345, MinInt64, MinInt64+1, MaxInt64, +-2^31, 2^32+7 over-weighted and cycled through the randomised templates in every run; never -1, documented as the clock), and a drawn order of 2-4 of the thread counts {1,2,4,16}. " +
-			"Inputs: nucleotide/protein alignments of 2-10 rows x 4-40 columns generated column by column with tied majority columns on purpose (2-way, 4-way, gap/letter and N/letter ties), codon-length alignments, or 2-12 (40 thorough) unaligned sequences around a mutated ORF. " +
-			"Oracle (sweep and every-template runs): every template is run on 2 (quick) / 12 per shard (thorough) generated inputs with every on/off option both ways, plus a random sweep; the command is executed 3 times with the first thread count and once with each other one, every execution in a fresh working directory; exit status, stdout and every file created must be byte-identical; randomised commands always get --seed, the others get it or not (seedless determinism). " +
+		Rule: "cases: executions of the goalign binary built from the tree under test. A table of 78 command templates (reformat fasta/phylip/nexus/clustal/paml/tnt incl. phylip and gz variants; clean sites/seqs; compute distance (7 nucleotide models, ranges, protein models)/entropy/pssm; consensus; stats and its 11 sub-commands; dedup; compress; concat; append; identical; diff; codonalign; mask; subseq; subsites; subset; split; extract; divide; transpose; rename; sort; addid; trim name/seq; replace; revcomp; tolower; unalign; translate; orf; phase; phasent; sw; shuffle sites/seqs/rogue/recomb/swap; sample seqs/sites/rarefy; mutate snvs/gaps; build seqboot (one template per output mode: plain files, --gz, --tar, --tar --gz, --partition; drawn -o prefix, -S, -f, 2-7 replicates in five cases out of six)/distboot/weightboot; random) with flag values derived from 8 drawn knobs, a --seed drawn over the whole int64 range (special values 0, 1, 2, -2, -3, -12345, MinInt64, MinInt64+1, MaxInt64, +-2^31, 2^32+7 over-weighted and cycled through the randomised templates in every run; never -1, documented as the clock), and a drawn order of 2-4 of the thread counts {1,2,4,16}. " +
+			"Inputs: nucleotide/protein alignments of 2-10 rows x 4-40 columns generated column by column with tied majority columns on purpose (2-way, 4-way, gap/letter and N/letter ties, columns of gaps and N/n (X/x) only in equal numbers, of gaps only, of wildcards only; consensus, stats maxchar, clean sites --char MAJ and mask get an even number of rows and one guaranteed column of each special kind), codon-length alignments, or 2-12 (40 thorough) unaligned sequences around a mutated ORF. " +
+			"Oracle (sweep and every-template runs): every template is run on 4 (quick) / 12 per shard (thorough) generated inputs whose knobs differ by 0..3, so that every on/off option is run both ways and every option of up to four values (e.g. the four combinations of --ignore-gaps/--ignore-n of consensus, stats maxchar, clean sites --char MAJ) every way, plus a random sweep; the command is executed 3 times with the first thread count and once with each other one, every execution in a fresh working directory; exit status, stdout and every file created (gz files also decompressed by the harness, tar archives member by member) must be byte-identical; randomised commands always get --seed, the others get it or not (seedless determinism). " +
 			"Reformat chains: alignments of 1-8 rows over the whole representable set (nucleotide or protein IUPAC letters in both cases, '-', '*', '?'; no '.'), names from a hostile-but-legal dictionary (numerics, format keywords, residue-like, punctuation, non-ASCII), random printable names and names of 9-100 characters, minus what a format of the chain cannot represent ('>' always, '[];=' with Nexus, > 10 bytes with strict Phylip); a file written by goalign in fasta/phylip (plain, strict, one-line, no-block)/nexus/clustal goes through 1-5 further reformat steps (file or pipe) and back to the first format: every step exits 0 and the final bytes equal the first file (lengths around the writers' line widths). " +
-			"Cross-command: build seqboot -n N --seed S (-f) then compute distance on boot0..N-1 concatenated == build distboot -n N --seed S with the same model/-r/--alpha/-f, byte for byte, each command with its own drawn -t. " +
+			"Cross-command: build seqboot -n N --seed S (-f, with or without --gz, replicates decompressed by the harness) then compute distance on boot0..N-1 concatenated == build distboot -n N --seed S with the same model/-r/--alpha/-f, byte for byte, each command with its own drawn -t. " +
 			"Regressions: TestPhaseOrder (80 fixed sequences, phase|phasent --unaligned -t 8, 6 executions, all byte-identical to -t 1) and TestNameMapOrder (12 sequences, trim name -a -m / rename -e -m / rename --clean-names -m, 8 executions each) keep the reproductions of the two defects found by this check and repaired by f25e994 and 21f2412. " +
 			"Non-trivial: output non-empty and (the command is randomised, or hands --threads to a worker pool and a thread count > 1 was run, or its output is assembled from a Go map); chains with >= 2 distinct formats; non-empty matrices; distinct = distinct JSON form of the case",
 		Assumptions: []string{
@@ -19,7 +19,7 @@ func init() {
 			"an execution that exceeds the 60 s limit of the runner is not judged (time is not a correctness signal)",
 			"absence of violations is established on the explored executions only",
 		},
-		LevelText: "Generated-input search with differential oracles between executions: ~2 700 (quick) to ~60 000 (thorough) executions of the freshly built binary over 74 command templates, compared byte for byte across repetitions, thread counts, reformat round trips and the seqboot+distance / distboot cross-check. Shows absence of violations on what was explored; every template is executed in every run.",
+		LevelText: "Generated-input search with differential oracles between executions: ~4 300 (quick) to ~60 000 (thorough) executions of the freshly built binary over 78 command templates, compared byte for byte across repetitions, thread counts, reformat round trips and the seqboot+distance / distboot cross-check. Shows absence of violations on what was explored; every template is executed in every run.",
 		LevelNote: "run-to-run differences that depend on goroutine scheduling or map iteration are found only with the probability that two of 4-6 executions differ (the two defects found this way, phase/phasent output order and name map file order, differed in 27 % to 100 % of the pairs of executions)",
 		Technique: "property-based testing (rapid) over command templates: repeated-execution and cross-thread differential, round-trip and cross-command metamorphic relations, deterministic regressions for the two repaired defects",
 		DesignRef: "DESIGN.md section 5, C11 (and section 2.6, 3 row 20)",
